@@ -154,7 +154,7 @@ class AtomsEngine(Engine):
             'scribbles on arrays handed out by copying accessors or passed with safecopy=True, writes through children '
             'that may alias their parent, and a property bound to a read-only array of the caller (setflags, broadcast_to, '
             'frombuffer) that is then reassigned through attribute / view / prop on a throwaway copy: accepted or refused, '
-            'attribute, view and prop() must agree. After EVERY operation every pooled object is compared cell by cell with a '
+            'attribute, view and prop() must agree. Whole-property sets also go through the mapping methods of the view (update, setdefault, |=); atoms_df takes scale as flag, list or one bare name (property names include pieces of "pos"); tables returned by df()/atoms_df() are kept across later edits (they must not change) or written into (the atoms must not change). After EVERY operation every pooled object is compared cell by cell with a '
             'record-per-atom model. Writes to an existing property are generated representable in its stored dtype '
             '(in-place overwrite is documented); indexed writes of atype<1 and empty selections are not generated. '
             'Non-trivial run: a fired fault or >= 2 state-changing ops. distinct = distinct (previous op, op, dtype '
